@@ -162,7 +162,7 @@ func runC15P(r *simkit.Run, c Cfg) {
 		if !closed {
 			r.Violate("c15.close", "listener channel not closed after Close returned and its queue was drained")
 		}
-		for _, g := range simkit.DumpGoroutines() {
+		for _, g := range simkit.DumpBubble() {
 			if g.Bubble == "" {
 				continue
 			}
